@@ -356,8 +356,8 @@ def op_is_call(rec):
     return rec["op"] in ("call", "clear")
 
 
-def check(prop, tier, seed):
-    v = Verdict(prop, tier, seed)
+def check(prop, tier, seed, into=None):
+    v = into or Verdict(prop, tier, seed)
     tot = {"states": 0, "transitions": 0, "paths": 0, "traces": 0}
     for cfg in TIERS[tier]:
         maxsize, typed, pats, form, maxops = cfg
